@@ -340,6 +340,8 @@ def run(tier, seed, replay=None):
 
         def inside(x, iv, rtol):
             tol = Fraction(rtol) * max(abs(iv[0]), abs(iv[1])) + Fraction(1, 10**9)
+            if not math.isfinite(x):
+                return False
             return iv[0] - tol <= Fraction(x) <= iv[1] + tol
         if not inside(c["value"], v_iv, 1e-9) or not inside(c["grad"], d_iv, 1e-7):
             k = f"C12:gradient-differs-from-proved-derivative:{c['kind']}"
